@@ -19,13 +19,22 @@ for d in facts:
             sigs[sp] = None          # ambiguous (same short path twice): never used for rename matching
         else:
             sigs[sp] = sig
+fields = {}
+for d in facts:
+    for a in d["adts"]:
+        if not a["key"].startswith("sqlgrep::") or len(a["variants"]) != 1:
+            continue
+        fl = [[f["name"], f["ty"]] for f in a["variants"][0]["fields"]]
+        if fl and not fl[0][0].isdigit():
+            fields[("bin/" if d["_target"] == "bin" else "") + a["key"]] = fl
 out = {"comment": "named functions of lib+bin on the pinned tree (HEAD of /repo when generated): a callee that is NOT in this list is a helper "
                   "introduced later and is inlined into the function a rule analyses. `sigs`: argument types + return type, used to "
                   "recognise a pinned function that was only renamed (same impl / module, same signature, old name gone, new name fresh)",
        "tree": info.get("tree"),
-       "fns": sorted(names), "sigs": {k: v for k, v in sorted(sigs.items()) if v is not None}}
+       "fns": sorted(names), "sigs": {k: v for k, v in sorted(sigs.items()) if v is not None},
+       "fields": {k: v for k, v in sorted(fields.items())}}
 p = os.path.join(os.path.dirname(os.path.dirname(os.path.abspath(__file__))), "tables", "pinned_fns.json")
 old = json.load(open(p)) if os.path.exists(p) else {"fns": []}
 json.dump(out, open(p, "w"), indent=0)
-print("pinned fns: %d (was %d), sigs %d" % (len(out["fns"]), len(old["fns"]), len(out["sigs"])))
+print("pinned fns: %d (was %d), sigs %d, structs %d" % (len(out["fns"]), len(old["fns"]), len(out["sigs"]), len(out["fields"])))
 print("added:", sorted(set(out["fns"]) - set(old["fns"]))[:10], "removed:", sorted(set(old["fns"]) - set(out["fns"]))[:10])
